@@ -26,6 +26,7 @@ import GraphiqModel.Proofs.PrepOrder
 import GraphiqModel.Proofs.Topo
 import GraphiqModel.Proofs.FuseLoop
 import GraphiqModel.Proofs.MetricsHistInv
+import GraphiqModel.Proofs.MetricsHistReach
 namespace Graphiq.C12
 open Graphiq Graphiq.Dag Graphiq.Metrics Relation
 
@@ -593,5 +594,40 @@ example : HistOKg (Dag.init 1 1 0)
   have gW : GraphiqOp wrapP0 := ⟨wrap_wf, ⟨⟨by decide, by decide⟩, by decide⟩, fun _ => ⟨⟨_, rfl⟩, rfl⟩⟩
   ⟨gH, ⟨gH, ⟨by decide, rfl, by intro e1 h1 e2 h2 hne; simp at h1 h2; subst h1 h2; exact absurd rfl hne⟩⟩,
    gC, gM, gW, trivial, trivial, gC, trivial, trivial, trivial, trivial, trivial, trivial⟩
+
+/-! ## 10. `find_incompatible_edges`: exactly which edges are reported -/
+
+/-- **Characterisation.**  With `anc` / `desc` meeting the recorded networkx specification, `find_incompatible_edges(first)`
+    returns `first` and exactly the edges whose source is a proper ancestor of `first`'s source, or `first`'s target, or a
+    descendant of it (the in-edge term of the code is redundant). -/
+theorem find_incompatible_edges_characterised {c : Dag} {first : Edge} {anc desc : List NodeId} {L : List Edge}
+    (hanc : AncSpec c first.src anc) (hdesc : DescSpec c first.dst desc)
+    (hL : c.findIncompatibleEdgesWith anc desc first = .ok L) (e : Edge) :
+    e ∈ L ↔ e = first ∨ (e ∈ c.edges ∧ (TransGen c.E e.src first.src ∨ ReflTransGen c.E first.dst e.src)) :=
+  findIncompatibleEdgesWith_iff hanc hdesc hL e
+
+/-- **Completeness with respect to cycles**: every edge of the graph on which a joint insertion with `first` would close a cycle
+    (a path from `first`'s target to the edge's source, or from the edge's target to `first`'s source) is reported — the
+    converse of `compatible_insert_keeps_dagInv`'s use of the set; for the model's own reachability no networkx hypothesis is left -/
+theorem find_incompatible_edges_complete {c : Dag} (h : DagInv c) {first e : Edge} {L : List Edge}
+    (hL : c.findIncompatibleEdges first = .ok L) (he : e ∈ c.edges)
+    (hcyc : ReflTransGen c.E first.dst e.src ∨ ReflTransGen c.E e.dst first.src) : e ∈ L :=
+  findIncompatibleEdgesWith_complete (model_reachability_meets_nx_spec h first.src).1
+    (model_reachability_meets_nx_spec h first.dst).2 hL he hcyc
+
+/-- **the reported set is conservative, not exact** (kernel-checked witness): on `CNOT e0→e1; H e1`, for `first` = the edge from
+    `H` to the output of `e1`, the edge from the CNOT to the output of `e0` is reported incompatible (its source, the CNOT, is
+    an ancestor of `H`) although a joint insertion there — appending a two-qubit gate on `e1, e0` — closes no cycle: the call
+    succeeds and keeps DagInv.  So the code loses candidate edge pairs but never admits a cyclic one. -/
+def cnotE0E1 : Op := ⟨.cnot, [⟨.e, 0⟩, ⟨.e, 1⟩], [], ["two-qubit"], []⟩
+def hE1 : Op := Op.oneQubit .hadamard ⟨.e, 1⟩
+def cnotE1E0 : Op := ⟨.cnot, [⟨.e, 1⟩, ⟨.e, 0⟩], [], ["two-qubit"], []⟩
+def consC : Dag := run (Dag.init 2 0 0) [.add cnotE0E1, .add hE1]
+
+example : (∃ L, consC.findIncompatibleEdges ⟨.op 2, .out ⟨.e, 1⟩, ⟨.e, 1⟩⟩ = .ok L ∧
+      (⟨.op 1, .out ⟨.e, 0⟩, ⟨.e, 0⟩⟩ : Edge) ∈ L) ∧
+    (consC.insertAt cnotE1E0 [⟨.op 2, .out ⟨.e, 1⟩, ⟨.e, 1⟩⟩, ⟨.op 1, .out ⟨.e, 0⟩, ⟨.e, 0⟩⟩]).2 = none ∧
+    (consC.insertAt cnotE1E0 [⟨.op 2, .out ⟨.e, 1⟩, ⟨.e, 1⟩⟩, ⟨.op 1, .out ⟨.e, 0⟩, ⟨.e, 0⟩⟩]).1.isAcyclicB = true :=
+  ⟨⟨_, rfl, by decide⟩, by decide, by decide⟩
 
 end Graphiq.C12
